@@ -10,6 +10,8 @@ claimed = {
          "Only functions under contract are covered (listed in the evidence); memory exhaustion, stack overflow, functions without contracts and panics inside reflect-driven lookups are outside. User-defined Python code reached through interface calls is modelled as 'may modify every Python-mutable heap component'.", "4 (C10)"),
  "C13": ("Slice.GetIndices is proved equal to the slice.indices specification over unbounded operands (including the in-bounds corollary for every produced index), Index/IndexInt/IndexIntCheck to the normalisation spec, and list/tuple indexing, slicing, concatenation and deletion to element-wise postconditions over the whole result with the operands unchanged and results fresh; loops carry quantified invariants.",
          "Operands of user-defined types with __index__ are outside the functional clauses (frame is 'modifies everything'); str, range and bytes are not yet under contract; replay of sequence counterexamples is not implemented (violations there are reported with no-failing-input-found).", "4 (C13)"),
+ "C12": ("VM side of stack safety: for 84 opcode handlers registered in the VM's jump table and for Vm.Call, the change of the value-stack length on the normal (err == nil) edge is proved EQUAL to compile.opcodeStackEffect(op, arg) - the real predictor function of the compiler, encoded from its own SSA, not re-typed - for every operand value and every stack, the block-stack delta is proved, the frame pointer is unchanged and (where provable) no nil is left on the stack. Equality of every step delta with the predictor gives equality of depths by induction on execution length (meta-argument).",
+         "Exception/with/finally opcodes whose delta depends on the mode (SETUP_WITH, SETUP_EXCEPT/FINALLY, WITH_CLEANUP, END_FINALLY, POP_EXCEPT, FOR_ITER, JUMP_IF_*_OR_POP, YIELD_*), the assembler (positions, jumps, lnotab), operand tables and the compiler-side depth induction are not yet under contract; the precondition 'stack deep enough' is assumed (established by the compiler). Calls out of the VM are assumed not to write the running frame's fields (ownership assumption listed in evidence).", "4 (C12 group 1)"),
 }
 na = {
  "C06": "not applicable to this technique family: the only faithful specification of the LALR parser is the grammar itself (DESIGN.md section 5)",
